@@ -165,7 +165,7 @@ def locate (m, at, direction = None):
     return p.idx, sgn
 # end def locate
 
-def build_api (spec, early_loads = False, late_sources = False, plain_list = False, ints = False, tags = 'early', media_objs = None):
+def build_api (spec, early_loads = False, late_sources = False, plain_list = False, ints = False, tags = 'early', media_objs = None, fix = True):
     """ The model of the spec built with the classes of the library instead
         of the command line, in the order the program uses - or, on
         request, in another order the API permits: distributed-load
@@ -305,7 +305,8 @@ def build_api (spec, early_loads = False, late_sources = False, plain_list = Fal
     else:
         sources ()
         loads ()
-    guard (m.fix_distributed_loads)
+    if fix:
+        guard (m.fix_distributed_loads)     # (fix = False: the caller of the library does not make this call - junction pulses then stay as they are)
     return m
 # end def build_api
 
